@@ -109,18 +109,19 @@ class PDPEnv(RL4COEnvBase):
         device = td.device
 
         locs = torch.cat((td["depot"][:, None, :], td["locs"]), -2)
+        num_loc = td["locs"].shape[-2]  # customers of this instance (pickups + deliveries)
 
         # Pick is 1, deliver is 0 [batch_size, graph_size+1], [1,1...1, 0...0]
         to_deliver = torch.cat(
             [
                 torch.ones(
                     *batch_size,
-                    self.generator.num_loc // 2 + 1,
+                    num_loc // 2 + 1,
                     dtype=torch.bool,
                 ).to(device),
                 torch.zeros(
                     *batch_size,
-                    self.generator.num_loc // 2,
+                    num_loc // 2,
                     dtype=torch.bool,
                 ).to(device),
             ],
@@ -129,7 +130,7 @@ class PDPEnv(RL4COEnvBase):
 
         # Masking variables
         available = torch.ones(
-            (*batch_size, self.generator.num_loc + 1), dtype=torch.bool
+            (*batch_size, num_loc + 1), dtype=torch.bool
         ).to(device)
         action_mask = torch.ones_like(available) # [batch_size, graph_size+1]
         if self.force_start_at_depot:
